@@ -240,6 +240,26 @@ def oracle_string_roundtrip(ctx, loc, case=None):
 def oracle_bridges(ctx, loc, length, case=None):
     ctx.count("op:bridges")
     got = L.location_bridges_origin(loc)
+    # the variant that may repair a mis-ordered location must leave a well-formed one exactly as it was, and agree
+    before = _s(loc)
+    flipped = CompoundLocation(list(reversed(loc.parts))) if len(loc.parts) > 1 else loc
+    if ring.is_bridging(loc) and not ring.is_bridging(flipped):
+        # ambiguous by design: the same parts in the other order are an ordinary multi-exon location, and the
+        # repairing variant is documented to prefer that reading
+        ctx.count("unspecified:bridging-location-that-reads-as-ordinary-when-reversed")
+        ok = False
+    else:
+        ok, tolerant = ctx.guard("bridges-origin-crash", case or before, L.location_bridges_origin, loc,
+                                 allow_reversing=True)
+    if ok:
+        ctx.count("op:bridges_allow_reversing")
+        if _s(loc) != before:
+            ctx.violate("query-leaves-location-unchanged", _facts(length, loc, before=before, after=_s(loc),
+                                                                   op="location_bridges_origin(allow_reversing=True)"),
+                        case or before)
+            return
+        if tolerant != got:
+            ctx.violate("bridges-origin", _facts(length, loc, got=tolerant, allow_reversing=True), case or before)
     if got != ring.is_bridging(loc):
         ctx.violate("bridges-origin", _facts(length, loc, got=got), case or _s(loc))
         return
@@ -453,6 +473,7 @@ def _run_random_case(ctx, case):
     nontrivial = _touches(length, *locs) or len(locs) > 2
     ctx.case(("rand", length, circular, [_s(l) for l in locs]), nontrivial=nontrivial,
              sample=dict(case, op="random-list"))
+    as_given = [_s(l) for l in locs]
     ok, res = _call(ctx, "connect-crash", case, L.connect_locations, locs, wrap)
     if ok:
         oracle_connect(ctx, locs, wrap, res, case, again=lambda ls: L.connect_locations(ls, wrap))
@@ -487,6 +508,11 @@ def _run_random_case(ctx, case):
         ok, res = _call(ctx, "extend-crash", case, big.extend_location, loc, dist)
         if ok:
             oracle_extend(ctx, loc, dist, length, circular, res, case)
+    # none of the operations above may have changed the locations handed to it
+    ctx.count("op:arguments-unchanged")
+    if [_s(l) for l in locs] != as_given:
+        ctx.violate("query-leaves-location-unchanged", {"L": length, "circular": circular, "before": as_given,
+                                                        "after": [_s(l) for l in locs], "op": "any of the above"}, case)
 
 
 def _SizedRecord(length, circular):
